@@ -419,6 +419,21 @@ pub fn run(o: &DetectOpts) -> serde_json::Value {
                     let alt = (rng.range(1, 9), c.bytes.len() / 2 + rng.below(c.bytes.len() + 2));
                     found.extend(check_c13_window(&c.bytes, &c.settings, &real_lines, alt));
                 }
+                // "the reported chaos depends only on the decoded text and the threshold": not on what the process analysed
+                // before.  Cold caches + this call, against cold caches + the same bytes under ANOTHER threshold + this call.
+                if focus == "C13" && idx % 3 == 0 && c.bytes.len() <= 4000 && c.settings.steps >= 1 {
+                    charset_normalizer_rs::verif_hooks::flush_caches();
+                    let cold = outcome_lines(&run_real(&c.bytes, &c.settings));
+                    charset_normalizer_rs::verif_hooks::flush_caches();
+                    let mut other = c.settings.clone();
+                    let t0 = c.settings.threshold.0;
+                    other.threshold = ordered_float::OrderedFloat(if t0 > 0.1 { 0.03 } else { 0.9 });
+                    let _ = run_real(&c.bytes, &other);
+                    let after = outcome_lines(&run_real(&c.bytes, &c.settings));
+                    if cold != after {
+                        found.push(Found { prop: "C13", what: format!("the result (chaos) for the same input and threshold {} changes when the same bytes were analysed under threshold {} just before", t0, other.threshold.0), known: None });
+                    }
+                }
                 let wf = c.settings.steps >= 1;
                 let deep = !same || o.replay.is_some() || idx % 4 == 0;
                 if wf && c.bytes.len() <= 40000 && (focus == "C09" || focus == "C06" || deep) {
